@@ -592,4 +592,33 @@ theorem recovers (P : SProto Q) (cls : Bytes → Ev) (lim : Limits) (req : Bytes
   | zero => unfold attempts; rw [hstep2]; exact ⟨rfl, hn⟩
   | succ k => unfold attempts; rw [hstep2]; exact ⟨rfl, hn⟩
 
+theorem opRequest_closed (P : SProto Q) (s : Sys Q) (es : List SEv) (req : Bytes) (tmo : Option Nat) (hc : s.conn.closed = true) :
+    opRequest P s es req tmo = (.connErr, { s with wire := s.wire ++ [(s.conn.idx, s.now, req)] }, es) := by
+  have hl : s.conn.live = false := by simp [PConn.live, hc]
+  have hp : putWire P s req = { s with wire := s.wire ++ [(s.conn.idx, s.now, req)] } := by
+    unfold putWire; simp only [hl]; split <;> simp
+  unfold opRequest opWrite
+  simp only [hp, tryAck, hc, if_true]
+
+/-- a transport read on a connection whose stream has ended (eof / reset) or that is closed returns at once - whatever
+    is queued (any backlog of unconsumed frames), with or without caller timeout, consuming no event -/
+theorem opRead_ended (P : SProto Q) (s : Sys Q) (es : List SEv) (tmo : Option Nat)
+    (h : s.conn.closed = true ∨ s.conn.streamEnded = true) :
+    (opRead P s es tmo).1 ≠ .blocked ∧ (opRead P s es tmo).1 ≠ .timeout ∧ (opRead P s es tmo).2.1.now = s.now ∧
+    (opRead P s es tmo).2.2 = es := by
+  have : ∃ r c, tryRead P s.conn = .done r c := by
+    unfold tryRead
+    rcases h with h | h
+    · simp [h]
+    · split
+      · exact ⟨_, _, rfl⟩
+      · split
+        · exact ⟨_, _, rfl⟩
+        · split <;> first | exact ⟨_, _, rfl⟩ | (simp only [h, if_true]; exact ⟨_, _, rfl⟩)
+  obtain ⟨r, c, hrc⟩ := this
+  unfold opRead
+  rw [hrc]
+  have := tryRead_res P _ _ _ hrc
+  exact ⟨this.1, this.2, rfl, rfl⟩
+
 end Gallia.LossSys
